@@ -153,13 +153,54 @@ def gen_case(r, n=None, dims=(1, 1, 2, 2, 3, 4, 5), exact_only=False, spec=None,
     if r.random() < 0.04:
         case["discrete"] = r.choice((1, 2))   # the problem declares discrete parameters (ignored by this solver version)
     if r.random() < 0.06:
-        case["ev_probe"] = r.choice(("inverse", "both"))    # the solver's evolvent is queried by the caller between the calls
+        case["ev_probe"] = r.choice(("inverse", "both", "stored"))    # the solver's evolvent is queried by the caller between the calls
+    if case["lim"] <= 60 and r.random() < 0.05:
+        case["shipped"] = gen_shipped(r, case["n"])    # a listener shipped with the library watches the run
     if r.random() < 0.08:
         nb = r.choice((1, 2, 3))
         blo, bhi = gen_box(r, nb)
         case["bg"] = {"spec": objectives.gen_spec(r, nb), "lower": [float(v) for v in blo], "upper": [float(v) for v in bhi],
                       "r": round(r.uniform(1.5, 5.0), 2), "m": r.randint(2, 10)}
     return case
+
+
+_HEADLESS = {}
+
+
+def shipped_listener(sh):
+    """an instance of a listener class of iOpt/method/listener.py, usable without a display: matplotlib on the Agg backend,
+    plt.show / plt.pause are no-ops for the rest of this process, figures go to one scratch directory removed at exit"""
+    import iOpt.method.listener as lm
+    name, kw = sh
+    if name.startswith("Console"):
+        return getattr(lm, name)(**kw)
+    if not _HEADLESS:
+        os.environ.setdefault("MPLBACKEND", "Agg")
+        import atexit, shutil, tempfile, warnings
+        import matplotlib
+        matplotlib.use("Agg", force=True)
+        import matplotlib.pyplot as plt
+        plt.show = lambda *a, **k: None
+        plt.pause = lambda *a, **k: None
+        warnings.filterwarnings("ignore", module="matplotlib")
+        _HEADLESS["dir"] = tempfile.mkdtemp(prefix="iopt-oracle-fig-")
+        _HEADLESS["plt"] = plt
+        atexit.register(shutil.rmtree, _HEADLESS["dir"], True)
+    _HEADLESS["plt"].close("all")
+    return getattr(lm, name)("fig.png", _HEADLESS["dir"], **kw)
+
+
+def gen_shipped(r, n):
+    fam = [("ConsoleFullOutputListener", {"mode": r.choice(["full", "custom", "result"])}),
+           ("StaticPaintListener", {"mode": "objective function", "indx": r.randrange(n)}),
+           ("StaticPaintListener", {"mode": "only points", "indx": r.randrange(n), "isPointsAtBottom": r.random() < 0.5})]
+    if n == 1:
+        fam.append(("AnimationPaintListener", {"toPaintObjFunc": r.random() < 0.7}))
+    if n >= 2:
+        ax = r.sample(range(n), 2)
+        fam += [("StaticNDPaintListener", {"mode": "lines layers", "calc": "objective function", "varsIndxs": ax}),
+                ("AnimationNDPaintListener", {"toPaintObjFunc": r.random() < 0.7, "varsIndxs": ax})]
+    return list(r.choice(fam))
 
 
 def boundary_spec(r, n):
@@ -239,9 +280,22 @@ class Run:
         self.problem = LoggedProblem.make(guarded, self.lower, self.upper, fail_at, exc,
                                           fresh_holder=bool(case.get("fresh_holder")),
                                           n_discrete=int(case.get("discrete", 0)), int_bounds=case.get("int_bounds"))
+        self.problem.keep_other = False     # evaluations made by a painter to draw the objective are not trials of the search
         self.solver = Solver(self.problem, SolverParameters(eps=case["eps"], r=case["r"], itersLimit=case["lim"],
                                                             evolventDensity=case["m"],
                                                             refineSolution=case.get("refine", False)))
+        # case["shipped"]: one of the listeners shipped with the library (console output, painters) is attached in front of the
+        # oracle's own: the properties of a run are claimed whatever listeners watch it, and the painters probe the objective and
+        # are handed the live search data and solution in OnMethodStop
+        # (not in runs where an evaluation is made to fail or a zero-length batch is issued before the first trial: the shipped
+        # painters are written for the plain Solve / DoGlobalIteration(k >= 1) usage and raise on an empty record - recorded in
+        # DESIGN.md, not a property of this list)
+        self.shipped = bool(case.get("shipped")) and fail_at is None and not case.get("first_fails") \
+            and case["spec"].get("kind") != "band" \
+            and 0 not in case.get("batches", ()) and not any(0 in c for c in case.get("compositions", ()))
+        if self.shipped:
+            self.cap += 200000
+            self.solver.AddListener(shipped_listener(case["shipped"]))
         for l in listeners:
             self.solver.AddListener(l)
         # case["bg"]: a second, unrelated solver lives in the same process and makes one iteration before and after every call
@@ -289,6 +343,18 @@ class Run:
                 ev.GetInverseImage(np.array(mid, dtype=np.double))
                 if self.case["ev_probe"] == "both":
                     ev.GetImage(0.61)
+                if self.case["ev_probe"] == "stored":
+                    # ... with the point objects of the record / of the current best trial THEMSELVES (the stored float64 arrays,
+                    # not copies): "where on the curve is this trial?" must not disturb what is stored
+                    sd = self.solver.searchData
+                    if sd.GetCount() > 2:
+                        its = [it for it in sd]
+                        for it in (its[len(its) // 2], its[-2], its[1]):
+                            ev.GetPreimages(it.GetY().floatVariables)
+                            ev.GetInverseImage(it.GetY().floatVariables)
+                        b = getattr(self.solver.method, "best", None)
+                        if b is not None:
+                            ev.GetPreimages(b.point.floatVariables)
             except Exception:      # noqa: BLE001
                 pass
         if self.bg is not None and self.bg_steps < 400:
@@ -357,7 +423,7 @@ class Run:
         return [e for e in self.problem.log if e[0] == "global"]
 
     def llog(self):
-        return [e for e in self.problem.log if e[0] != "global"]
+        return [e for e in self.problem.log if e[0] == "local"]
 
     def history(self):
         """[(x, z, point)] in order of evaluation: x from the stored items (insertion order), point and
